@@ -363,11 +363,11 @@ func (w *world) opDeploy(si int) *op {
 	kv := chainx.NewKV(fmt.Sprintf("kv%d-%d", si, w.seq), byte(w.r.Intn(250)))
 	h := kv.Hash(w.net.Account(owner))
 	tx := w.mkTx(kv.DeployScript([]byte{byte(w.seq)}), 0, w.net.Single(owner))
-	o := &op{kind: "kv.deploy", tx: tx, line: fmt.Sprintf("tx %s c=- kv.deploy c%d", sigList(fmt.Sprintf("k%d", owner)), si)}
-	// bookkeeping is committed by the caller when the tx HALTs
+	s.gen++
 	s.kv, s.hash, s.owner = kv, h, owner
-	w.toks[h] = fmt.Sprintf("c%d", si)
-	return o
+	s.deployed = true // optimistic; re-read from the chain after the block
+	w.toks[h] = fmt.Sprintf("c%dg%d", si, s.gen)
+	return &op{kind: "kv.deploy", tx: tx, model: true, line: fmt.Sprintf("tx %s c=- kv.deploy %s", sigList(fmt.Sprintf("k%d", owner)), w.tok(h))}
 }
 
 func (w *world) opInvoke(si int) *op {
@@ -408,7 +408,7 @@ func (w *world) opInvoke(si int) *op {
 		desc = append(desc, "abort")
 	}
 	tx := w.mkTx(chainx.Script(abort, calls...), 0, w.net.Single(p))
-	return &op{kind: "kv.invoke", tx: tx, line: fmt.Sprintf("tx %s c=- kv.invoke c%d %s", sigList(fmt.Sprintf("k%d", p)), si, strings.Join(desc, "+"))}
+	return &op{kind: "kv.invoke", tx: tx, line: fmt.Sprintf("tx %s c=- kv.invoke %s %s", sigList(fmt.Sprintf("k%d", p)), w.tok(s.hash), strings.Join(desc, "+"))}
 }
 
 func (w *world) opUpdate(si int) *op {
@@ -419,7 +419,7 @@ func (w *world) opUpdate(si int) *op {
 	}
 	nkv := chainx.NewKV(s.kv.Name, byte(250+w.r.Intn(5)))
 	tx := w.mkTx(chainx.Script(false, chainx.Call{Hash: s.hash, Method: "update", Args: []any{nkv.NEFBytes, nkv.ManBytes, []byte{0xee}}, Drop: true}), 0, w.net.Single(p))
-	return &op{kind: "kv.update", tx: tx, line: fmt.Sprintf("tx %s c=- kv.update c%d", sigList(fmt.Sprintf("k%d", p)), si)}
+	return &op{kind: "kv.update", tx: tx, line: fmt.Sprintf("tx %s c=- kv.update %s", sigList(fmt.Sprintf("k%d", p)), w.tok(s.hash))}
 }
 
 func (w *world) opDestroy(si int) *op {
@@ -429,7 +429,8 @@ func (w *world) opDestroy(si int) *op {
 		return nil
 	}
 	tx := w.mkTx(chainx.Script(false, chainx.Call{Hash: s.hash, Method: "destroy", Drop: true}), 0, w.net.Single(p))
-	return &op{kind: "kv.destroy", tx: tx, model: true, line: fmt.Sprintf("tx %s c=- kv.destroy c%d", sigList(fmt.Sprintf("k%d", p)), si)}
+	s.deployed = false // optimistic; re-read from the chain after the block
+	return &op{kind: "kv.destroy", tx: tx, model: true, votes: true, line: fmt.Sprintf("tx %s c=- kv.destroy %s", sigList(fmt.Sprintf("k%d", p)), w.tok(s.hash))}
 }
 
 // faulting entry scripts that touch natives before failing
